@@ -193,9 +193,25 @@ def rule_split(ctx, py):
     # the engine splits every reaction and stacks forward, reverse
     h = py.fn("librdengine.LibRDEngine.setup")
     src = pyfe.src(h).replace(" ", "")
-    okl = ("rf,rr=r.split()" in src and "reactions.append(rf)" in src and "reactions.append(rr)" in src and
-           src.index("reactions.append(rf)") < src.index("reactions.append(rr)")) or \
-        "reactions.extend(r.split())" in src or "reactions+=r.split()" in src or "reactions+=list(r.split())" in src
+    # what the loop over the network's reactions hands to the engine, in order, with locals written out
+    okl = False
+    for lp in [n for n in ast.walk(h) if isinstance(n, ast.For)]:
+        if pysym.isrc(lp.iter, h).replace(" ", "") not in ("script.system.network.reactions", "list(script.system.network.reactions)"):
+            continue
+        rv = pyfe.src(lp.target)
+        emitted = []
+        for st in lp.body:
+            c_ = st.value if isinstance(st, ast.Expr) and isinstance(st.value, ast.Call) else None
+            if c_ is not None and isinstance(c_.func, ast.Attribute) and pyfe.src(c_.func.value) == "reactions" and c_.args:
+                t = pysym.isrc(c_.args[0], h).replace(" ", "")
+                if c_.func.attr == "append":
+                    emitted.append(t)
+                elif c_.func.attr == "extend":
+                    emitted.append("*" + t)
+            elif isinstance(st, ast.AugAssign) and pyfe.src(st.target) == "reactions" and isinstance(st.op, ast.Add):
+                emitted.append("*" + pysym.isrc(st.value, h).replace(" ", ""))
+        sp = "%s.split()" % rv
+        okl = emitted in ([sp + "[0]", sp + "[1]"], ["*" + sp], ["*list(%s)" % sp], ["*[%s[0],%s[1]]" % (sp, sp)])
     ctx.check(okl, R, h, h._qual, "engine reaction list = [fwd0, rev0, fwd1, rev1, ...]", "", "the engine's reaction list is "
               "not the forward / reverse halves of every reaction, in that order")
     ctx.floor(R, 4)
